@@ -281,6 +281,28 @@ func (e *Env) localByName(name string) (Val, bool) {
 			}
 		}
 	}
+	// source-level names through DebugRef (ssa.GlobalDebug)
+	var cand ssa.Value
+	ncand := 0
+	for _, b := range e.fn.Blocks {
+		for _, in := range b.Instrs {
+			if d, ok := in.(*ssa.DebugRef); ok && !d.IsAddr {
+				if id, ok := d.Expr.(*ast.Ident); ok && id.Name == name {
+					if _, have := e.st.vals[d.X]; have {
+						if cand != d.X {
+							ncand++
+						}
+						cand = d.X
+					} else if c, isConst := d.X.(*ssa.Const); isConst {
+						_ = c
+					}
+				}
+			}
+		}
+	}
+	if ncand == 1 {
+		return e.st.vals[cand], true
+	}
 	for _, fv := range e.fn.FreeVars {
 		if fv.Name() == name {
 			if v, ok := e.st.vals[fv]; ok {
@@ -293,6 +315,21 @@ func (e *Env) localByName(name string) (Val, bool) {
 		}
 	}
 	return Val{}, false
+}
+
+// localAlloc: the Alloc instruction of an address-taken local variable.
+func (e *Env) localAlloc(name string) *ssa.Alloc {
+	var found *ssa.Alloc
+	for _, b := range e.fn.Blocks {
+		for _, in := range b.Instrs {
+			if a, ok := in.(*ssa.Alloc); ok && a.Comment == name {
+				if _, have := e.st.vals[a]; have {
+					found = a
+				}
+			}
+		}
+	}
+	return found
 }
 
 func (e *Env) evalBinary(n *ast.BinaryExpr) Val {
@@ -472,6 +509,11 @@ func (e *Env) evalAddr(x ast.Expr) (ref string, t types.Type, ghostSort string) 
 		if id, ok := ghostGlobals[n.Name]; ok {
 			return sx("fld", ghostRoot, fmt.Sprint(id)), nil, "Int"
 		}
+		if _, isVar := e.vars[n.Name]; !isVar && e.fn != nil {
+			if a := e.localAlloc(n.Name); a != nil {
+				return e.st.vals[a].S, derefType(a.Type()), ""
+			}
+		}
 		e.fail("cannot take address of %s", n.Name)
 		return "null", nil, ""
 	case *ast.StarExpr:
@@ -511,6 +553,15 @@ func (e *Env) evalAddr(x ast.Expr) (ref string, t types.Type, ghostSort string) 
 			}
 			if !handled {
 				e.err = save
+			}
+		}
+		if id, ok := n.X.(*ast.Ident); ok && !handled && e.fn != nil {
+			if _, isVar := e.vars[id.Name]; !isVar {
+				if a := e.localAlloc(id.Name); a != nil {
+					if _, isStruct := derefType(a.Type()).Underlying().(*types.Struct); isStruct {
+						baseRef, baseT, handled = e.st.vals[a].S, derefType(a.Type()), true
+					}
+				}
 			}
 		}
 		if !handled {
@@ -814,6 +865,7 @@ func (e *Env) evalCall(n *ast.CallExpr) Val {
 		scratch := e.st.clone()
 		pc0 := scratch.pc
 		sub.st = scratch
+		e.r.noBind++
 		var body string
 		if len(n.Args) == 2 {
 			body = sub.eval(n.Args[1]).S
@@ -828,6 +880,7 @@ func (e *Env) evalCall(n *ast.CallExpr) Val {
 				body = sAnd(rng, b)
 			}
 		}
+		e.r.noBind--
 		if sub.err != nil {
 			e.err = sub.err
 		}
@@ -845,8 +898,12 @@ func (e *Env) evalCall(n *ast.CallExpr) Val {
 				e.st.assume(defs[i])
 			}
 		}
-		if len(inner) > 0 {
-			return e.fail("%s body introduces definitions depending on the bound variable (use direct heap-free terms)", fname)
+		for _, d := range inner {
+			// with binding disabled only range / well-formedness facts about
+			// terms mentioning the bound variable remain; they are dropped
+			if strings.HasPrefix(d, "(= ") && strings.Contains(strings.SplitN(d, " ", 3)[1], "!") && !strings.HasPrefix(strings.SplitN(d, " ", 3)[1], "(") {
+				return e.fail("%s body introduces a definition depending on the bound variable: %s", fname, trunc(d, 120))
+			}
 		}
 		return boolVal(sx(fname, "(("+vname+" Int))", body))
 	case "fresh":
@@ -937,6 +994,42 @@ func (e *Env) evalCall(n *ast.CallExpr) Val {
 		return intVal(arg(0).S, nil)
 	case "star", "elems":
 		return e.fail("%s() is only valid in modifies clauses", fname)
+	}
+	if fname == "funcref" {
+		lit, ok := n.Args[0].(*ast.BasicLit)
+		if !ok {
+			return e.fail("funcref(\"pkg.Func\")")
+		}
+		name, _ := strconv.Unquote(lit.Value)
+		fn := e.r.W.FuncByKey[name]
+		if fn == nil {
+			return e.fail("funcref: unknown function %s", name)
+		}
+		return refVal(e.r.funcRef(fn), nil)
+	}
+	if pd := e.r.W.Specs.Preds[fname]; pd != nil {
+		if len(n.Args) != len(pd.Params) {
+			return e.fail("pred %s expects %d args", fname, len(pd.Params))
+		}
+		sub := *e
+		sub.vars = map[string]Val{}
+		for k, v := range e.vars {
+			sub.vars[k] = v
+		}
+		for i, p := range pd.Params {
+			sub.vars[p] = arg(i)
+		}
+		if pd.Pkg != "" {
+			if sp := e.r.W.SSAPkgs[pd.Pkg]; sp != nil {
+				sub.pkg = sp.Pkg
+			}
+		}
+		sub.fn = nil
+		v := sub.eval(pd.Body)
+		if sub.err != nil && e.err == nil {
+			e.err = fmt.Errorf("in pred %s: %v", fname, sub.err)
+		}
+		return v
 	}
 	// spec function application
 	if sf := e.r.W.Specs.SpecFns[fname]; sf != nil {
